@@ -170,12 +170,31 @@ pub fn value_satisfies_type<TCompilationProfile: CompilationProfile>(
                 .wrap_err()
             }
         }
-        NonConstantValue::Integer(_) => scalar_literal_satisfies_type(
+        NonConstantValue::Integer(integer) => scalar_literal_satisfies_type(
             *INT_ENTITY_NAME,
             field_argument_definition_type,
             selection_supplied_argument_value.location,
             "an integer literal",
         )
+        .and_then(|()| {
+            // GraphQL's Int is a signed 32-bit integer. A server rejects an operation in
+            // which a literal outside of that range is passed for an Int.
+            if i32::try_from(*integer).is_ok() {
+                Ok(())
+            } else {
+                Diagnostic::new(
+                    format!(
+                        "Expected input of type {field_argument_definition_type}, \
+                        found the integer literal {integer}, which is not a 32-bit integer"
+                    ),
+                    selection_supplied_argument_value
+                        .location
+                        .to::<Location>()
+                        .wrap_some(),
+                )
+                .wrap_err()
+            }
+        })
         .or_else(|error| {
             scalar_literal_satisfies_type(
                 *FLOAT_ENTITY_NAME,
